@@ -117,7 +117,11 @@ class Sim:
         from incomplete_cooperative.run.save import Output, get_outputs_from_file, json_serializer, save_json
         out = make_output(out_spec)
         before_text = self.path.read_text() if self.path.exists() else None
-        before = json.loads(before_text) if before_text is not None else {}
+        try:
+            before = json.loads(before_text) if before_text is not None else {}
+        except ValueError:
+            res.fail(f"results-file-unparseable :: before saving {name!r} the results file no longer parses (an earlier save left it damaged); entries expected {sorted(self.model)}")
+            return
         if out_spec.get("unserialisable"):
             # a save that cannot be serialised must fail without touching what is already in the file
             try:
@@ -148,7 +152,11 @@ class Sim:
         if not self.path.exists():
             res.fail("file-missing :: no results file after save")
             return
-        raw = json.loads(self.path.read_text())
+        try:
+            raw = json.loads(self.path.read_text())
+        except ValueError:
+            res.fail(f"results-file-unparseable :: after saving {name!r} the results file does not parse; entries expected {sorted(self.model)}")
+            return
         if set(raw) != set(self.model):
             res.fail(f"names :: file holds {sorted(raw)}, expected {sorted(self.model)}")
             return
